@@ -394,6 +394,31 @@ func forEachMediaRange(header []byte, functor func([]byte)) {
 	}
 }
 
+// spacesForTabs returns params with every horizontal tab outside a quoted string replaced by a
+// space (in a copy; params itself is returned when it holds no tab). RFC 9110 allows HTAB as
+// optional whitespace around ';', fasthttp.VisitHeaderParams skips spaces only.
+func spacesForTabs(params []byte) []byte {
+	if bytes.IndexByte(params, '\t') == -1 {
+		return params
+	}
+	out := make([]byte, len(params))
+	inQuotes, escaped := false, false
+	for i, b := range params {
+		switch {
+		case escaped:
+			escaped = false
+		case b == '\\' && inQuotes:
+			escaped = true
+		case b == '"':
+			inQuotes = !inQuotes
+		case b == '\t' && !inQuotes:
+			b = ' '
+		}
+		out[i] = b
+	}
+	return out
+}
+
 // Pool for headerParams instances. The headerParams object *must*
 // be cleared before being returned to the pool.
 var headerParamPool = sync.Pool{
@@ -437,7 +462,7 @@ func getOffer(header []byte, isAccepted func(spec, offer string, specParams head
 				for k := range params {
 					delete(params, k)
 				}
-				fasthttp.VisitHeaderParams(accept[i:], func(key, value []byte) bool {
+				fasthttp.VisitHeaderParams(spacesForTabs(accept[i:]), func(key, value []byte) bool {
 					if len(key) == 1 && (key[0] == 'q' || key[0] == 'Q') {
 						if q, err := fasthttp.ParseUfloat(value); err == nil {
 							quality = q
